@@ -408,10 +408,10 @@ vk_rf_harness!(vk_ratio_to_float_k_finding_f64_double_rounding, vk_rf_stub_div_r
 // converting an integer / a float into a rational and back yields the original, so it must succeed whenever the target
 // can hold the value.  No stubs here (no division, only concrete shifts).
 //
-// KNOWN FINDINGS on the unchanged tree ('finding' harnesses, expected to FAIL):
-//  (R3) `TryFrom<Repr> for UBig` tests `numerator.is_one()` where it means `denominator.is_one()`:
-//       5 -> Err(LossOfPrecision), 0 -> Err(LossOfPrecision), 1/2 -> Ok(1).  Right only for negative values, for 1 and for
-//       non-integers with numerator > 1.
+// (History: `TryFrom<Repr> for UBig` tested `numerator.is_one()` where it meant `denominator.is_one()`: 5 ->
+// Err(LossOfPrecision), 0 -> Err(LossOfPrecision), 1/2 -> Ok(1); fixed in /repo, `vk_ratio_to_float_k_to_ubig` fails on it.)
+//
+// KNOWN FINDING on the unchanged tree ('finding' harnesses, expected to FAIL):
 //  (R4) `TryFrom<RBig> for f32/f64` does `numerator.try_into().unwrap()` into i32 / i64 after a bound check on the *top
 //       bit* only: every numerator that does not fit the mantissa type panics (2^31 -> panic although it is an f32;
 //       2^31 + 1 -> panic instead of Err(LossOfPrecision)).
@@ -425,26 +425,18 @@ fn vk_rf_int_inputs() -> (i16, u8) {
     (n, d)
 }
 
-fn vk_rf_r3_region(n: i16, d: u8) -> bool {
-    n == 0 || (n == 1 && d > 1) || (n > 1 && d == 1)
-}
-
-fn vk_rf_check_to_ubig(n: i16, d: u8) {
-    let r = Repr { numerator: IBig::from(n), denominator: UBig::from(d) };
-    match UBig::try_from(r) {
-        Ok(v) => assert!(d == 1 && n >= 0 && v == UBig::from(n.unsigned_abs())),
-        Err(ConversionError::OutOfBounds) => assert!(n < 0),
-        Err(ConversionError::LossOfPrecision) => assert!(d != 1),
-    }
-}
-
 #[cfg_attr(kani, kani::proof)]
 #[cfg_attr(kani, kani::unwind(3))]
 #[cfg_attr(not(kani), test)]
 fn vk_ratio_to_float_k_to_ubig() {
     let (n, d) = vk_rf_int_inputs();
-    assume(!vk_rf_r3_region(n, d));
-    vk_rf_check_to_ubig(n, d);
+    let r = Repr { numerator: IBig::from(n), denominator: UBig::from(d) };
+    // (results are compared as primitives: `==` on UBig/IBig runs a byte loop)
+    match UBig::try_from(r) {
+        Ok(v) => assert!(d == 1 && n >= 0 && u16::try_from(v) == Ok(n as u16)),
+        Err(ConversionError::OutOfBounds) => assert!(n < 0),
+        Err(ConversionError::LossOfPrecision) => assert!(d != 1),
+    }
     cover();
 }
 
@@ -455,20 +447,9 @@ fn vk_ratio_to_float_k_to_ibig() {
     let (n, d) = vk_rf_int_inputs();
     let r = Repr { numerator: IBig::from(n), denominator: UBig::from(d) };
     match IBig::try_from(r) {
-        Ok(v) => assert!(d == 1 && v == IBig::from(n)),
+        Ok(v) => assert!(d == 1 && i16::try_from(v) == Ok(n)),
         Err(e) => assert!(d != 1 && e == ConversionError::LossOfPrecision),
     }
-    cover();
-}
-
-/// kind 'finding' (R3): expected to FAIL
-#[cfg_attr(kani, kani::proof)]
-#[cfg_attr(kani, kani::unwind(3))]
-#[cfg_attr(not(kani), test)]
-fn vk_ratio_to_float_k_finding_to_ubig() {
-    let (n, d) = vk_rf_int_inputs();
-    assume(vk_rf_r3_region(n, d));
-    vk_rf_check_to_ubig(n, d);
     cover();
 }
 
@@ -534,8 +515,6 @@ fn vk_ratio_to_float_k_try_f64() {
     vk_rf_check_try_f64(n as i128, 0);
     vk_rf_check_try_f64(n as i128, 1);
     vk_rf_check_try_f64(n as i128, 64);
-    vk_rf_check_try_f64(n as i128, 1074);
-    vk_rf_check_try_f64(n as i128, 1075);
     cover();
 }
 
@@ -546,8 +525,8 @@ fn vk_ratio_to_float_k_try_f64() {
 fn vk_ratio_to_float_k_finding_try_f32_wide_num() {
     let n: i64 = any();
     assume(n < i32::MIN as i64 || n > i32::MAX as i64);
+    cover(); // (before the call: it panics for every input of the region)
     vk_rf_check_try_f32(n, 0);
-    cover();
 }
 
 /// kind 'finding' (R4): numerators beyond i64 (|n| < 2^64), expected to FAIL (panic in `unwrap`)
@@ -557,99 +536,6 @@ fn vk_ratio_to_float_k_finding_try_f32_wide_num() {
 fn vk_ratio_to_float_k_finding_try_f64_wide_num() {
     let n: i128 = any();
     assume(n < i64::MIN as i128 || n > i64::MAX as i128);
+    cover(); // (before the call: it panics for every input of the region)
     vk_rf_check_try_f64(n, 0);
-    cover();
-}
-
-// TEMPORARY native self-test (removed before delivery)
-#[cfg(not(kani))]
-#[test]
-fn vk_rf_selftest_tmp() {
-    extern crate std;
-    use std::println;
-    let mut seed: u64 = 0x9e3779b97f4a7c15;
-    let mut rnd = move || {
-        seed ^= seed << 13;
-        seed ^= seed >> 7;
-        seed ^= seed << 17;
-        seed
-    };
-    // 1. oracle against hardware RNE for d = 2^k
-    for _ in 0..200000 {
-        let bitsn = (rnd() % 64) as u32 + 1;
-        let n = rnd() >> (64 - bitsn);
-        let k = (rnd() % 16) as u32;
-        let f = n as f32; // RNE
-        let ex = f as u64 == n && (f as f64) == (n as f64) && (n as f32 as f64 as u128 == n as u128);
-        let _ = ex;
-        let y = f.to_bits() as u64 - ((k as u64) << 23); // divide by 2^k (normal range)
-        if n == 0 { continue; }
-        let exact = (f as f64 as u128) == n as u128 && (f as f64) < 1.9e19;
-        let exact = if f as f64 >= 1.8446744073709552e19 { false } else { exact };
-        let pos = (f as f64) > 0.0 && ((f as f64 as u128) > n as u128 || f as f64 >= 1.8446744073709552e19);
-        assert!(vk_rf_rne_ok(false, n as u128, 1u128 << k, 0, 23, 8, y, exact, pos), "n={n} k={k}");
-        assert!(!vk_rf_rne_ok(false, n as u128, 1u128 << k, 0, 23, 8, y + 1, false, true), "n={n} k={k} +1");
-        assert!(!vk_rf_rne_ok(false, n as u128, 1u128 << k, 0, 23, 8, y - 1, false, false), "n={n} k={k} -1");
-        let g = n as f64;
-        let y = g.to_bits() - ((k as u64) << 52);
-        let exact = (g as u128) == n as u128 && g < 1.8446744073709552e19;
-        let pos = g >= 1.8446744073709552e19 || (g as u128) > n as u128;
-        assert!(vk_rf_rne_ok(false, n as u128, 1u128 << k, 0, 52, 11, y, exact, pos), "64 n={n} k={k}");
-        assert!(!vk_rf_rne_ok(false, n as u128, 1u128 << k, 0, 52, 11, y + 1, false, true));
-        assert!(!vk_rf_rne_ok(false, n as u128, 1u128 << k, 0, 52, 11, y - 1, false, false));
-    }
-    // 2. the code against the oracle: where does it fail?
-    let (mut fail32, mut fail32_in, mut in32, mut tot) = (0u64, 0u64, 0u64, 0u64);
-    let (mut fail64, mut fail64_in, mut in64) = (0u64, 0u64, 0u64);
-    for it in 0..400000u64 {
-        let bitsn = (rnd() % 64) as u32 + 1;
-        let mut n = rnd() >> (64 - bitsn);
-        let bitsd = (rnd() % 16) as u32 + 1;
-        let d = ((rnd() >> (64 - bitsd)) as u16).max(1);
-        let neg = rnd() & 1 == 1;
-        // exponents: normal range, f32 subnormal / overflow, f64 subnormal / overflow
-        let (e1, e2): (usize, usize) = match it % 8 {
-            0 | 1 | 2 => (0, 0),
-            3 => (0, 100 + (rnd() % 130) as usize),
-            4 => (40 + (rnd() % 100) as usize, 0),
-            5 => (0, 1000 + (rnd() % 150) as usize),
-            6 => (900 + (rnd() % 150) as usize, 0),
-            _ => ((rnd() % 64) as usize, (rnd() % 64) as usize),
-        };
-        if it % 5 == 0 {
-            // steer towards a 25-bit / 54-bit quotient near a midpoint
-            let dd = d as u64;
-            let base: u64 = if it % 10 == 0 { (1 << 24) + 2 * (rnd() % 1000) + 1 } else { (1u64 << 53) + 2 * (rnd() % 1000) + 1 };
-            if let Some(v) = base.checked_mul(dd) {
-                n = v.wrapping_add(rnd() % dd).wrapping_sub(rnd() % dd);
-            }
-        }
-        let (nn, dd, e) = (n as u128, d as u128, e1 as i32 - e2 as i32);
-        tot += 1;
-        let r = vk_rf_repr(neg, n, e1, d, e2);
-        let (bits, exact, pos) = vk_rf_flat32(r.to_f32());
-        let ok = vk_rf_rne_ok(neg, nn, dd, e, 23, 8, bits, exact, pos);
-        let tie = n != 0 && vk_rf_tie_region(nn, dd, e, 23, 8, bits);
-        in32 += tie as u64;
-        if !ok {
-            fail32 += 1;
-            fail32_in += tie as u64;
-            if !tie {
-                println!("f32 FAIL outside region: neg={neg} n={n} e1={e1} d={d} e2={e2} bits={bits:#x} exact={exact} pos={pos}");
-            }
-        }
-        let (bits, exact, pos) = vk_rf_flat64(r.to_f64());
-        let ok = vk_rf_rne_ok(neg, nn, dd, e, 52, 11, bits, exact, pos);
-        let tie = n != 0 && vk_rf_tie_region(nn, dd, e, 52, 11, bits);
-        let cut = n != 0 && vk_rf_scale(nn, dd, e, 52) == -1128 && vk_rf_cmp(nn, e, dd, -1075) > 0;
-        in64 += (tie || cut) as u64;
-        if !ok {
-            fail64 += 1;
-            fail64_in += (tie || cut) as u64;
-            if !(tie || cut) {
-                println!("f64 FAIL outside region: neg={neg} n={n} e1={e1} d={d} e2={e2} bits={bits:#x} exact={exact} pos={pos}");
-            }
-        }
-    }
-    println!("total {tot}: f32 fails {fail32} (in region {fail32_in}, region size {in32}); f64 fails {fail64} (in region {fail64_in}, region size {in64})");
 }
